@@ -531,6 +531,72 @@ func jwsReplay(args []string) {
 						return
 					}
 
+					// a batch signed with ONE header map that the caller changes from item to item, serialized afterwards:
+					// each JWS is the one that was signed (its own header, its own payload)
+					{
+						batchHdr := jws.Headers{}
+						for name, v := range signer.Headers() {
+							batchHdr[name] = v
+						}
+
+						type item struct {
+							j   *jwsutil.JSONWebSignature
+							cty string
+							pl  []byte
+						}
+
+						var batch []item
+
+						for bi, cty := range []string{"application/a", "application/b", "application/c"} {
+							batchHdr["cty"] = cty
+							pl := append([]byte(fmt.Sprintf("item %d: ", bi)), payload...)
+
+							bj, be := jwsutil.NewJWS(batchHdr, nil, pl, signer)
+							if be != nil {
+								fail("sign-error", be.Error(), nil, nil, nil)
+								return
+							}
+
+							batch = append(batch, item{bj, cty, pl})
+						}
+
+						for bi, it := range batch {
+							bs, _ := it.j.SerializeCompact(false)
+
+							back, verr := jwsutil.VerifyJWS(bs, key.JWK)
+							if verr != nil || !bytes.Equal(back.Payload, it.pl) {
+								fail("matching-key-does-not-verify", fmt.Sprintf("item %d of a batch signed with one header map: %v", bi, verr), "verifies", nil, bs)
+								return
+							}
+
+							if got, _ := back.ProtectedHeaders["cty"].(string); got != it.cty {
+								fail("matching-key-does-not-verify", fmt.Sprintf("item %d of a batch signed with one header map carries the header of another item", bi), it.cty, got, bs)
+								return
+							}
+						}
+					}
+
+					// the b64 header (RFC 7797), true and false, with payloads that hold periods: what the library serializes it
+					// reads back, verified, with the payload unchanged
+					for _, b64v := range []bool{true, false} {
+						for _, pl := range [][]byte{payload, []byte(`{"amount":1.5}`), []byte("a.b.c"), []byte(".")} {
+							bj, be := jwsutil.NewJWS(jws.Headers{"alg": key.Alg, "b64": b64v, "crit": []interface{}{"b64"}}, nil, pl, signer)
+							if be != nil {
+								continue // (a library may refuse the header or the payload: then there is no JWS to read back)
+							}
+
+							bs, se := bj.SerializeCompact(false)
+							if se != nil {
+								continue
+							}
+
+							if back, verr := jwsutil.VerifyJWS(bs, key.JWK); verr != nil || !bytes.Equal(back.Payload, pl) {
+								fail("matching-key-does-not-verify", fmt.Sprintf("b64 = %v, payload %q: %v", b64v, pl, verr), "verifies", nil, bs)
+								return
+							}
+						}
+					}
+
 					// a key whose coordinate starts with a zero byte signs and verifies like any other
 					if key.KT != "ed" {
 						rk := pool.Get(key.KT, "rare:jws-signer")
@@ -698,6 +764,31 @@ func jwsReplay(args []string) {
 			}
 		}
 
+		// a JWK of this key that fails as JSON (a member of the wrong type), then JWKs of the same type without
+		// coordinates: nothing of the first may be found in the second (on one processor: see disturbances)
+		if c.Mod == "none" {
+			full, _ := json.Marshal(j)
+			broken := append(append([]byte(nil), full[:len(full)-1]...), []byte(`,"use":7}`)...)
+			prev := runtime.GOMAXPROCS(1)
+
+			for _, empty := range []string{fmt.Sprintf(`{"kty":%q,"crv":%q,"x":"","y":""}`, j.Kty, j.Crv), fmt.Sprintf(`{"kty":%q,"crv":%q}`, j.Kty, j.Crv),
+				fmt.Sprintf(`{"kty":%q,"crv":%q,"x":""}`, j.Kty, j.Crv), `{}`} {
+				var first, second jwsutil.JWK
+
+				_ = first.UnmarshalJSON(broken)
+
+				if e := second.UnmarshalJSON([]byte(empty)); e == nil && second.Key != nil {
+					runtime.GOMAXPROCS(prev)
+					fail("modified-jwk-accepted", "a JWK without coordinates, read right after a JWK that failed to decode, is read as a key", "rejected",
+						map[string]interface{}{"read_accepted": true}, empty)
+
+					return
+				}
+			}
+
+			runtime.GOMAXPROCS(prev)
+		}
+
 		mod := cloneJWK(j)
 
 		switch c.Mod {
@@ -722,6 +813,9 @@ func jwsReplay(args []string) {
 			mod.X = "+" + j.X[1:]
 		case "x_short_shadowed":
 			mod.X = b64(x[1:])
+		case "x_short_y_long":
+			mod.X = b64(x[1:])
+			mod.Y = b64(append([]byte{0}, y...))
 		case "x_plus_p":
 			// (P-521: every x + p fits the 66 bytes)
 			pk := key.Pub.(*ecdsa.PublicKey)
